@@ -50,6 +50,133 @@ def hmac_rows(check, repo, prop="C03"):
             cite="RFC 2104 2, FIPS 198-1 4"))
 
 
+def hmac_history_rows(check, repo, prop="C03"):
+    """HMAC as an object over a functional stand-in hash (hashlib's SHA-256 and SHA-1 behind new / update / digest /
+    copy objects held in the abstract heap): for histories of update / digest / hexdigest / verify / copy calls every
+    tag equals Python's hmac over the data authenticated so far - digest() is an observer (calling it again, continuing
+    with update(), verifying after it, copying after it are all defined), a copy continues independently, verify
+    accepts exactly the tag."""
+    import hashlib
+    import hmac as _hmac
+    from ..absint import Interp
+    from ..absstate import State
+    from ..absval import AObj
+    HM = H + "HMAC"
+    mod = repo.module(HM)
+    cls = repo.cls(mod, "HMAC")
+
+    def world(hname):
+        def mk(i, st, data):
+            o = i.new_obj(st, label="fhash")
+            st.heap[o.ident].update({"kind": "fhash", "data": bytes(data), "digest_size": hashlib.new(hname).digest_size, "block_size": 64})
+            return o
+
+        def h(st, base):
+            d = st.heap.get(getattr(base, "ident", -1), {})
+            return d if d.get("kind") == "fhash" else None
+
+        def mm_new(i, base, a, kw, st, node):
+            if isinstance(base, AObj) and base.label in ("fhashmod", "fhash"):
+                d = a[0] if a else kw.get("data", b"")
+                return mk(i, st, d if isinstance(d, (bytes, bytearray)) else b"") if d is None or isinstance(d, (bytes, bytearray)) else UNK
+            return None
+
+        def mm_update(i, base, a, kw, st, node):
+            d = h(st, base)
+            if d is None or not a or not isinstance(a[0], (bytes, bytearray)):
+                return UNK
+            d["data"] = d["data"] + bytes(a[0])
+            return None
+
+        def mm_digest(i, base, a, kw, st, node):
+            d = h(st, base)
+            return hashlib.new(hname, d["data"]).digest() if d is not None else UNK
+
+        def mm_copy(i, base, a, kw, st, node):
+            d = h(st, base)
+            return mk(i, st, d["data"]) if d is not None else UNK
+        def m_blake(i, a, kw, st, node):
+            k_, d_ = kw.get("key", b""), kw.get("data", b"")
+            if not isinstance(k_, (bytes, bytearray)) or not isinstance(d_, (bytes, bytearray)):
+                return UNK
+            return mk(i, st, b"BLAKE2s|" + bytes(k_) + b"|" + bytes(d_))
+        it = Interp(repo, max_depth=6, method_models={"new": mm_new, "update": mm_update, "digest": mm_digest, "copy": mm_copy},
+                    extra_models={"Crypto.Random.get_random_bytes": lambda i, a, kw, st, node: bytes(a[0]) if a and isinstance(a[0], int) else UNK,
+                                  "Crypto.Hash.BLAKE2s.new": m_blake})
+        it.ffi_default = 0
+        return it
+    histories = [
+        ("sha256", 20, [b"abc", "digest", "digest"]),
+        ("sha256", 64, [b"abc", "digest", b"def", "digest", "hexdigest"]),
+        ("sha1", 100, ["digest", b"x" * 70, "digest", "verify", "verify"]),
+        ("sha256", 0, [b"m", "verify", "digest", "badverify", "digest"]),
+        ("sha1", 65, [b"one", "copy", b"two", "digest", "copy.digest", b"three", "copy.update", "copy.digest", "digest"]),
+        ("sha256", 32, [b"a" * 200, "digest", "copy", "copy.digest", "copy.update", "copy.digest", "digest"]),
+    ]
+    wrong = []
+    n = 0
+    for hname, klen, steps in histories:
+        key = bytes((7 * j + 1) & 0xFF for j in range(klen))
+        it = world(hname)
+        st = State()
+        dm = it.new_obj(st, label="fhashmod", attrs={"digest_size": hashlib.new(hname).digest_size, "block_size": 64, "oid": "1.2.3"})
+        me = it.new_obj(st, mod, cls, havoc=False)
+        res = it.run(mod, repo.func(mod, "HMAC.__init__"), {"key": key, "msg": b"", "digestmod": dm}, self_obj=me, state=st)
+        if len(res.returns()) != 1 or res.raises():
+            raise AnalysisError("HMAC.__init__ over the functional stand-in hash could not be interpreted (%s)" % res.raise_classes())
+        cur = res.returns()[0].state
+        data, cdata, cp = b"", None, None
+        for k, step in enumerate(steps):
+            cur.frames = [{}]
+            obj, d = (cp, cdata) if isinstance(step, str) and step.startswith("copy.") else (me, data)
+            name = step.split(".")[-1] if isinstance(step, str) else "update"
+            want_tag = _hmac.new(key, d if d is not None else b"", hname).digest()
+            args = {}
+            if name == "update":
+                piece = step if isinstance(step, bytes) else b"more"
+                args = {"msg": piece}
+            elif name == "verify":
+                args = {"mac_tag": want_tag}
+            elif name == "badverify":
+                args = {"mac_tag": bytes([want_tag[0] ^ 1]) + want_tag[1:]}
+            meth = {"badverify": "verify"}.get(name, name)
+            if obj is None:
+                raise AnalysisError("history refers to a copy before copy()")
+            res = it.run(mod, repo.func(mod, "HMAC." + meth), args, self_obj=obj, state=cur)
+            n += 1
+            rets = res.returns()
+            if name == "badverify":
+                if rets or set(res.raise_classes()) != {"ValueError"}:
+                    wrong.append("%s, key of %d bytes, step %d: verify() of a modified tag %s" % (hname, klen, k + 1, "is accepted" if rets else "raises %s" % res.raise_classes()))
+                    break
+                continue
+            if len(rets) != 1 or res.raises():
+                wrong.append("%s, key of %d bytes, step %d (%s): %d exits, raises %s" % (hname, klen, k + 1, step if isinstance(step, str) else "update", len(rets), res.raise_classes()))
+                break
+            cur = rets[0].state
+            v = rets[0].value
+            if name == "update":
+                if obj is me:
+                    data += piece
+                else:
+                    cdata += piece
+            elif name == "copy" and obj is me:
+                cp, cdata = v, data
+                if not isinstance(cp, AObj):
+                    wrong.append("%s: copy() returns %r" % (hname, v))
+                    break
+            elif name in ("digest", "hexdigest"):
+                got = bytes(v) if isinstance(v, (bytes, bytearray)) else (bytes.fromhex(v) if isinstance(v, str) else None)
+                if got != want_tag:
+                    wrong.append("%s, key of %d bytes, step %d: %s%s() returns %s, HMAC of the %d bytes so far is %s" % (
+                        hname, klen, k + 1, "copy." if obj is not me else "", name, got.hex()[:16] if got else v, len(d), want_tag.hex()[:16]))
+                    break
+    fn = repo.func(mod, "HMAC.digest")
+    check.ob("SEG", "SEG|hmac.histories", not wrong, mod.path, fn.lineno,
+             extracted=("%d histories differ: " % len(wrong) + "; ".join(wrong[:3])) if wrong else "%d steps over %d histories (digest twice, update after digest, verify after digest, copies before and after digest): every tag equals hmac over the data so far" % (n, len(histories)),
+             expected="RFC 2104: digest() does not consume the object; a copy continues independently; verify() accepts exactly the tag")
+
+
 def cmac_rows(check, repo):
     CM = H + "CMAC"
 
@@ -225,6 +352,7 @@ def fresh_instance_rows(check, repo):
 def run(check, ctx):
     repo = ctx.repo
     hmac_rows(check, repo)
+    hmac_history_rows(check, repo)
     cmac_rows(check, repo)
     fresh_instance_rows(check, repo)
     # ---- V: MAC verification ---------------------------------------------------------------
